@@ -17,7 +17,7 @@ CONF = {
     "C01": tiers(2500, 4, 60000, 12, t_stages=["fuzz"], t_fuzztime="90s"),
     "C02": tiers(2500, 4, 40000, 12),
     "C03": tiers(2000, 4, 30000, 12, t_stages=["fuzz"], t_fuzztime="90s"),
-    "C04": tiers(3000, 4, 40000, 12),
+    "C04": tiers(3000, 4, 40000, 12, stages=["c04gen"], t_gen_defs=150, t_gen_inputs=300),
     "C07": tiers(2500, 4, 40000, 12, t_stages=["fuzz"], t_fuzztime="90s"),
     "C16": tiers(1500, 4, 20000, 12),
     "C17": tiers(20000, 2, 300000, 12),
@@ -42,8 +42,8 @@ NOT_APPLICABLE = {}
 
 GRAM_NOTE = ("Trusts the harness's reference parser (gram/model.go, a ~300-line clean-room restatement of the documented "
              "semantics, itself validated by agreement with the real parser on hundreds of thousands of cases and by planted-mutation probes), "
-             "the generator's domain (<=7 productions, inputs <=40 tokens over a 12-token vocabulary, one stateful lexer profile with "
-             "WS/Comment elision) and rapid. Cases whose reference evaluation exceeds 20000 steps are discarded and counted, not judged.")
+             "the generator's domain (<=7 productions, inputs <=40 tokens over a 12-token vocabulary, two lexer profiles: a stateful one "
+             "with WS/Comment elision and the default text/scanner lexer) and rapid. Cases whose reference evaluation exceeds 20000 steps are discarded and counted, not judged.")
 
 LEX_NOTE = ("Trusts the harness's reference lexer (lexgen/ref.go, written from the documented behaviour; it walks the user's rules without "
             "pre-expanding includes and matches with unanchored regexps accepted only at offset 0), the generator's domain (<=4 states, <=6 rules "
